@@ -7,6 +7,10 @@
 (* "asBuilt" is the pinned code before the fix (handler map read after       *)
 (* RUnlock, ambiguity pre-check / strict URL / AllowHeader outside the lock) *)
 (* and is kept as a named deviation: TLC must find its counterexample.       *)
+(* The lock is Go's sync.RWMutex: a writer that has asked for the lock blocks *)
+(* NEW readers (ww), which is what makes a read section that asks for the     *)
+(* read lock a second time deadlock - the third discipline, "recursiveRead"  *)
+(* (a seeded change and, once, the verification hooks themselves did that).   *)
 EXTENDS Naturals, Sequences, FiniteSets, TLC
 \* (the @type comments are for Apalache, which discharges the inductive invariant of apalache/LockInd.tla; TLC ignores them)
 CONSTANTS
@@ -26,6 +30,8 @@ VARIABLES
   wl,      \* write-lock holder ("none")
   \* @type: Set(Str);
   rl,      \* set of read-lock holders
+  \* @type: Set(Str);
+  ww,      \* writers that have called Lock and wait for it (they block new readers)
   \* @type: Str -> Str;
   acc,     \* acc[p] \in {"none","r","w"}: p is inside an access to the tree right now
   \* @type: Str -> Int;
@@ -38,53 +44,56 @@ VARIABLES
   view,    \* what a reader's walk found: <<found, generation>>
   \* @type: Str -> Str;
   reply    \* last reply of a reader
-vars == <<pc, wl, rl, acc, left, live, gen, view, reply>>
+vars == <<pc, wl, rl, ww, acc, left, live, gen, view, reply>>
 
-Init == /\ pc = [p \in Procs |-> "idle"] /\ wl = "none" /\ rl = {} /\ acc = [p \in Procs |-> "none"]
+Init == /\ pc = [p \in Procs |-> "idle"] /\ wl = "none" /\ rl = {} /\ ww = {} /\ acc = [p \in Procs |-> "none"]
         /\ left = [p \in Procs |-> NOps] /\ live = FALSE /\ gen = 0
         /\ view = [p \in Procs |-> <<FALSE, 0>>] /\ reply = [p \in Procs |-> "-"]
 Goto(p, x)  == pc' = [pc EXCEPT ![p] = x]
 Begin(p, k) == acc' = [acc EXCEPT ![p] = k]
 End(p)      == acc' = [acc EXCEPT ![p] = "none"]
-Locked == Discipline = "intended"
+Locked == Discipline \in {"intended", "recursiveRead"}
 
 \* ---------------- writer: Add (toggle on) / Remove (toggle off)
 WStart(p) == /\ pc[p] = "idle" /\ left[p] > 0 /\ left' = [left EXCEPT ![p] = @ - 1]
              /\ Goto(p, IF Locked THEN "w_lock" ELSE "w_amb_b")       \* asBuilt: checkAmbiguous before Lock
-             /\ UNCHANGED <<wl, rl, acc, live, gen, view, reply>>
-WLock(p)  == /\ pc[p] = "w_lock" /\ wl = "none" /\ rl = {} /\ wl' = p
+             /\ UNCHANGED <<wl, rl, acc, live, gen, view, reply, ww>>
+WLockReq(p) == pc[p] = "w_lock" /\ ww' = ww \cup {p} /\ Goto(p, "w_wait") /\ UNCHANGED <<wl, rl, acc, left, live, gen, view, reply>>
+WLock(p)  == /\ pc[p] = "w_wait" /\ wl = "none" /\ rl = {} /\ wl' = p /\ ww' = ww \ {p}
              /\ Goto(p, IF Locked THEN "w_amb_b" ELSE "w_mut_b") /\ UNCHANGED <<rl, acc, left, live, gen, view, reply>>
-WAmbB(p)  == pc[p] = "w_amb_b" /\ Begin(p, "r") /\ Goto(p, "w_amb_e") /\ UNCHANGED <<wl, rl, left, live, gen, view, reply>>
+WAmbB(p)  == pc[p] = "w_amb_b" /\ Begin(p, "r") /\ Goto(p, "w_amb_e") /\ UNCHANGED <<wl, rl, left, live, gen, view, reply, ww>>
 WAmbE(p)  == /\ pc[p] = "w_amb_e" /\ End(p) /\ Goto(p, IF Locked THEN "w_mut_b" ELSE "w_lock")
-             /\ UNCHANGED <<wl, rl, left, live, gen, view, reply>>
-WMutB(p)  == pc[p] = "w_mut_b" /\ Begin(p, "w") /\ Goto(p, "w_mut_e") /\ UNCHANGED <<wl, rl, left, live, gen, view, reply>>
+             /\ UNCHANGED <<wl, rl, left, live, gen, view, reply, ww>>
+WMutB(p)  == pc[p] = "w_mut_b" /\ Begin(p, "w") /\ Goto(p, "w_mut_e") /\ UNCHANGED <<wl, rl, left, live, gen, view, reply, ww>>
 WMutE(p)  == /\ pc[p] = "w_mut_e" /\ End(p) /\ live' = ~live /\ gen' = (IF live THEN gen ELSE gen + 1)
-             /\ Goto(p, "w_unlock") /\ UNCHANGED <<wl, rl, left, view, reply>>
-WUnlock(p) == pc[p] = "w_unlock" /\ wl' = "none" /\ Goto(p, "idle") /\ UNCHANGED <<rl, acc, left, live, gen, view, reply>>
+             /\ Goto(p, "w_unlock") /\ UNCHANGED <<wl, rl, left, view, reply, ww>>
+WUnlock(p) == pc[p] = "w_unlock" /\ wl' = "none" /\ Goto(p, "idle") /\ UNCHANGED <<rl, acc, left, live, gen, view, reply, ww>>
 
 \* ---------------- reader: ServeHTTP = walk + handler-map lookup (+ AllowHeader at request time)
 RStart(p)  == /\ pc[p] = "idle" /\ left[p] > 0 /\ left' = [left EXCEPT ![p] = @ - 1]
-              /\ Goto(p, "r_lock") /\ UNCHANGED <<wl, rl, acc, live, gen, view, reply>>
-RLock(p)   == pc[p] = "r_lock" /\ wl = "none" /\ rl' = rl \cup {p} /\ Goto(p, "r_walk_b") /\ UNCHANGED <<wl, acc, left, live, gen, view, reply>>
-RWalkB(p)  == pc[p] = "r_walk_b" /\ Begin(p, "r") /\ Goto(p, "r_walk_e") /\ UNCHANGED <<wl, rl, left, live, gen, view, reply>>
+              /\ Goto(p, "r_lock") /\ UNCHANGED <<wl, rl, acc, live, gen, view, reply, ww>>
+RLock(p)   == pc[p] = "r_lock" /\ wl = "none" /\ ww = {} /\ rl' = rl \cup {p} /\ Goto(p, "r_walk_b") /\ UNCHANGED <<wl, acc, left, live, gen, view, reply, ww>>
+RWalkB(p)  == pc[p] = "r_walk_b" /\ Begin(p, "r") /\ Goto(p, "r_walk_e") /\ UNCHANGED <<wl, rl, left, live, gen, view, reply, ww>>
 RWalkE(p)  == /\ pc[p] = "r_walk_e" /\ End(p) /\ view' = [view EXCEPT ![p] = <<live, gen>>]
-              /\ Goto(p, IF Locked THEN "r_look_b" ELSE "r_unlock") /\ UNCHANGED <<wl, rl, left, live, gen, reply>>
+              /\ Goto(p, IF Discipline = "recursiveRead" THEN "r_re_lock" ELSE IF Locked THEN "r_look_b" ELSE "r_unlock") /\ UNCHANGED <<wl, rl, left, live, gen, reply, ww>>
+\* deviation "recursiveRead": the read section calls something that takes the read lock AGAIN (Node.Methods() under Handler's lock)
+RReLock(p) == pc[p] = "r_re_lock" /\ wl = "none" /\ ww = {} /\ Goto(p, "r_look_b") /\ UNCHANGED <<wl, rl, ww, acc, left, live, gen, view, reply>>
 RUnlock(p) == /\ pc[p] = "r_unlock" /\ rl' = rl \ {p}
-              /\ Goto(p, IF Locked THEN "r_allow_lock" ELSE "r_look_b") /\ UNCHANGED <<wl, acc, left, live, gen, view, reply>>
-RLookB(p)  == pc[p] = "r_look_b" /\ Begin(p, "r") /\ Goto(p, "r_look_e") /\ UNCHANGED <<wl, rl, left, live, gen, view, reply>>
+              /\ Goto(p, IF Locked THEN "r_allow_lock" ELSE "r_look_b") /\ UNCHANGED <<wl, acc, left, live, gen, view, reply, ww>>
+RLookB(p)  == pc[p] = "r_look_b" /\ Begin(p, "r") /\ Goto(p, "r_look_e") /\ UNCHANGED <<wl, rl, left, live, gen, view, reply, ww>>
 \* the handler-map read: a node found during the walk may have lost (or changed) its handlers meanwhile
 RLookE(p)  == /\ pc[p] = "r_look_e" /\ End(p)
               /\ reply' = [reply EXCEPT ![p] = IF ~view[p][1] THEN "404"
                                                ELSE IF live /\ gen = view[p][2] THEN "200" ELSE "torn"]
-              /\ Goto(p, IF Locked THEN "r_unlock" ELSE "r_allow_b") /\ UNCHANGED <<wl, rl, left, live, gen, view>>
+              /\ Goto(p, IF Locked THEN "r_unlock" ELSE "r_allow_b") /\ UNCHANGED <<wl, rl, left, live, gen, view, ww>>
 \* AllowHeader()/Methods() called by the user's handler after Handler returned
-RAllowLock(p) == pc[p] = "r_allow_lock" /\ wl = "none" /\ rl' = rl \cup {p} /\ Goto(p, "r_allow_b") /\ UNCHANGED <<wl, acc, left, live, gen, view, reply>>
-RAllowB(p) == pc[p] = "r_allow_b" /\ Begin(p, "r") /\ Goto(p, "r_allow_e") /\ UNCHANGED <<wl, rl, left, live, gen, view, reply>>
-RAllowE(p) == /\ pc[p] = "r_allow_e" /\ End(p) /\ rl' = rl \ {p} /\ Goto(p, "idle") /\ UNCHANGED <<wl, left, live, gen, view, reply>>
+RAllowLock(p) == pc[p] = "r_allow_lock" /\ wl = "none" /\ ww = {} /\ rl' = rl \cup {p} /\ Goto(p, "r_allow_b") /\ UNCHANGED <<wl, acc, left, live, gen, view, reply, ww>>
+RAllowB(p) == pc[p] = "r_allow_b" /\ Begin(p, "r") /\ Goto(p, "r_allow_e") /\ UNCHANGED <<wl, rl, left, live, gen, view, reply, ww>>
+RAllowE(p) == /\ pc[p] = "r_allow_e" /\ End(p) /\ rl' = rl \ {p} /\ Goto(p, "idle") /\ UNCHANGED <<wl, left, live, gen, view, reply, ww>>
 
-Next == \/ \E p \in Writers : WStart(p) \/ WLock(p) \/ WAmbB(p) \/ WAmbE(p) \/ WMutB(p) \/ WMutE(p) \/ WUnlock(p)
+Next == \/ \E p \in Writers : WStart(p) \/ WLockReq(p) \/ WLock(p) \/ WAmbB(p) \/ WAmbE(p) \/ WMutB(p) \/ WMutE(p) \/ WUnlock(p)
         \/ \E p \in Readers : RStart(p) \/ RLock(p) \/ RWalkB(p) \/ RWalkE(p) \/ RUnlock(p) \/ RLookB(p) \/ RLookE(p)
-                              \/ RAllowLock(p) \/ RAllowB(p) \/ RAllowE(p)
+                              \/ RAllowLock(p) \/ RAllowB(p) \/ RAllowE(p) \/ RReLock(p)
 Spec == Init /\ [][Next]_vars
 
 \* ---------------- properties
@@ -94,4 +103,7 @@ LockOK == (wl # "none" => rl = {}) /\ (\A p \in Procs : acc[p] = "w" => wl = p)
 \* every reply is one the router could have produced sequentially between call and return:
 \* the toggled route answers 200 with the handler the walk saw, or 404 - never "node found, handler gone / foreign"
 NoTornReply == \A p \in Readers : reply[p] # "torn"
+\* nobody waits for ever: unless every goroutine has finished, some step is possible
+AllDone == \A p \in Procs : pc[p] = "idle" /\ left[p] = 0
+NoDeadlock == AllDone \/ ENABLED Next
 =============================================================================
